@@ -59,7 +59,8 @@ def write(mname, m, tier, seed, workers, batch, selftest, reports, wall, t_batch
         "other_counters": {k: v for k, v in sorted(stats.items())
                            if not k.startswith(("op:", "exc:", "fault:", "read:", "probe:"))},
         "abstract_states_reached": len(r["states"]),
-        "abstract_transitions_reached": len(r["transitions"]),
+        "abstract_transitions_reached": len([t for t in r["transitions"] if t[0] != "schedule"]),
+        "distinct_interleavings_of_multi_object_runs": len([t for t in r["transitions"] if t[0] == "schedule"]),
         "state_measure": m.STATE_MEASURE,
         "runs_with_unconstructible_initial_configuration": r["init_errors"],
         "determinism_selftest": selftest,
